@@ -339,6 +339,7 @@ struct World {
     rq_id: [Option<tako::resources::ResourceRqId>; 3],
     next_alloc: u64,
     next_worker: u32,
+    clock_mark: std::time::Instant,
     rng: Rng,
     _server_future: Pin<Box<dyn Future<Output = tako::Result<()>>>>,
 }
@@ -414,6 +415,7 @@ impl World {
             rq_id: [None, None, None],
             next_alloc: 1,
             next_worker: 1,
+            clock_mark: std::time::Instant::now(),
             rng: Rng::new(seed ^ 0x5eed),
             _server_future: Box::pin(fut),
         }
@@ -485,6 +487,15 @@ impl World {
     async fn exec(&mut self, op: &Op) -> (String, Vec<String>) {
         let mut out = vec![];
         let line;
+        // wall-clock never matters: real time that passed since the previous operation is taken
+        // out of every limiter, only ADV moves their clocks
+        {
+            let mark = self.clock_mark;
+            for (_, q) in self.state.queues_mut() {
+                q.limiter_mut().verif_freeze_clock(mark);
+            }
+            self.clock_mark = std::time::Instant::now();
+        }
         for h in self.handlers.values() {
             let mut h = h.borrow_mut();
             h.submit_calls.clear();
@@ -714,6 +725,10 @@ impl World {
 
 /// Runs one op with panic capture. Returns (O line, outputs, panicked).
 fn run_op(rt: &tokio::runtime::Runtime, w: &mut World, op: &Op, fallback_line: &str) -> (String, Vec<String>, bool) {
+    // self-test of the clock freeze: HQV_AUTOALLOC_STALL_MS=<ms> stalls before every TICK
+    if let (Op::Tick { .. }, Ok(ms)) = (op, std::env::var("HQV_AUTOALLOC_STALL_MS")) {
+        std::thread::sleep(Duration::from_millis(ms.parse().unwrap_or(0)));
+    }
     let r = catch(|| rt.block_on(w.exec(op)));
     match r {
         Ok((l, o)) => (l, o, false),
